@@ -324,6 +324,45 @@ def run_property(pid: str, tier: str, seed: int) -> int:
             for r in pool.imap_unordered(run_shard, tasks):
                 results.append(r)
 
+    # 2b. coverage-guided lanes (atheris), thorough tier only; a lane that cannot run reports 'skipped'
+    fuzz_stats: dict[str, dict] = {}
+    fuzz_lanes = getattr(mod, "FUZZ_LANES", []) if (tier == "thorough" or os.environ.get("VERIF_FUZZ") == "1") else []
+    if fuzz_lanes:
+        import subprocess
+        import tempfile
+
+        fdir = tempfile.mkdtemp(prefix="fuzz-", dir=scratch.root())
+        procs = []
+        nseeds = int(os.environ.get("VERIF_FUZZ_PROCS", "4"))
+        for fl in fuzz_lanes:
+            runs = fl.get("runs", {}).get(tier, fl.get("runs", {}).get("thorough", 20000))
+            for k in range(nseeds):
+                res = os.path.join(fdir, f"{fl['name']}-{k}.json")
+                cmd = [sys.executable, "-m", "vlib.fuzzlane", pid, fl["name"], str(runs // nseeds), str(derive(seed, pid, fl["name"], k) % (2**31 - 1) + 1), res]
+                procs.append((fl, res, subprocess.Popen(cmd, cwd=VERIF_DIR, stdout=subprocess.DEVNULL, stderr=subprocess.DEVNULL)))
+        for fl, res, pr in procs:
+            try:
+                pr.wait(timeout=int(os.environ.get("VERIF_FUZZ_TIMEOUT", "1500")))
+            except subprocess.TimeoutExpired:
+                pr.kill()
+            st = {"execs": 0, "violation": None, "skipped": "no result file", "nontrivial": 0}
+            try:
+                with open(res) as f:
+                    st = json.load(f)
+            except Exception:
+                pass
+            agg = fuzz_stats.setdefault(fl["name"], {"execs": 0, "nontrivial": 0, "skipped": None, "procs": 0})
+            agg["execs"] += st.get("execs", 0)
+            agg["nontrivial"] += st.get("nontrivial", 0)
+            agg["procs"] += 1
+            if st.get("skipped"):
+                agg["skipped"] = st["skipped"]
+            if st.get("violation"):
+                vi = st["violation"]
+                if vi["bucket"] not in suppress:
+                    violations.append({"lane": vi["lane"], "case": vi["case"], "clause": vi["clause"], "detail": vi["detail"],
+                                       "bucket": vi["bucket"], "info": {"found_by": "atheris:" + fl["name"]}})
+
     # 3. merge
     per_lane: dict[str, dict] = {}
     all_nontriv: set[tuple[str, int]] = set()
@@ -364,6 +403,12 @@ def run_property(pid: str, tier: str, seed: int) -> int:
             "kind": "enumeration" if lane.enumerate is not None else "hypothesis",
         }
 
+    for name, agg in fuzz_stats.items():
+        evaluations += agg["execs"]
+        per_lane["atheris:" + name] = {"evaluations": agg["execs"], "distinct_nontrivial": agg["nontrivial"], "grey": 0,
+                                       "excluded_known": {}, "labels": {}, "rule": "coverage-guided (libFuzzer via atheris), semantic oracle inside the target",
+                                       "exhaustive": False, "kind": "atheris", "skipped": agg["skipped"], "processes": agg["procs"]}
+
     # 4. violations -> replay files
     printed = 0
     seen_buckets = set()
@@ -399,10 +444,11 @@ def run_property(pid: str, tier: str, seed: int) -> int:
         "level": getattr(mod, "LEVEL", "exploration"),
         "coverage": {
             "evaluations": evaluations,
-            "distinct_nontrivial": len(all_nontriv),
+            "distinct_nontrivial": len(all_nontriv) + sum(a["nontrivial"] for a in fuzz_stats.values()),
             "rule": getattr(mod, "RULE", ""),
             "samples": samples,
             "exhaustive": bool(per_lane) and all(pl["exhaustive"] for pl in per_lane.values()),
+            "atheris_execs": sum(a["execs"] for a in fuzz_stats.values()),
             "lanes": per_lane,
             "known_findings_reported": known_lines,
             "suppressed_buckets": sorted(suppress),
